@@ -56,6 +56,7 @@ func c16(c *Ctx) {
 	c.intervalsAreOrdered("R16.7")
 	c.uidSetsSkipMissing("R16.8")
 	c.uidDispatchInRange("R16.9")
+	c.setsAreOnlyInterpretedByTheResolvers("R16.10")
 
 	// ---- R16.1b / R16.3 conversions ---------------------------------------------------
 	convs, narrow := 0, 0
@@ -1227,4 +1228,49 @@ func orderedByHelper(P *engine.Prog, a, b ssa.Value) bool {
 		}
 	}
 	return n > 0
+}
+
+// setsAreOnlyInterpretedByTheResolvers (R16.10): nothing but the resolvers looks inside a message set.
+func (c *Ctx) setsAreOnlyInterpretedByTheResolvers(rule string) {
+	P, R := c.P, c.R
+	R.Explain(rule, "one interpretation of a message set: in the server packages (internal/state, internal/session, internal/backend) the bounds of a command.SeqRange (fields Begin / End, or SeqNum.IsAsterisk on them) are read only by the resolver functions snapMsgList.resolveSeqInterval / resolveUIDInterval / resolveSeq / resolveUID (and helpers only they call).  Any other code that inspects a set to take a short cut (`1:*` means everything) has its own idea of what `*` and the internal 0 encoding mean - `*` alone then selects the whole mailbox.")
+	allowed := []string{
+		"internal/state.(*snapMsgList).resolveSeqInterval", "internal/state.(*snapMsgList).resolveUIDInterval",
+		"internal/state.(*snapMsgList).resolveSeq", "internal/state.(*snapMsgList).resolveUID",
+	}
+	R.Table(rule+" functions allowed to read SeqRange bounds", allowed...)
+	n := 0
+	for _, f := range c.funcsInPkg("internal/state", "internal/session", "internal/backend") {
+		reads := ""
+		for _, b := range f.Blocks {
+			for _, in := range b.Instrs {
+				var x ssa.Value
+				var idx int
+				switch t := in.(type) {
+				case *ssa.FieldAddr:
+					x, idx = t.X, t.Field
+				case *ssa.Field:
+					x, idx = t.X, t.Field
+				default:
+					continue
+				}
+				tt := x.Type()
+				if p, ok := tt.Underlying().(*types.Pointer); ok {
+					tt = p.Elem()
+				}
+				if engine.IsNamed(tt, "imap/command", "SeqRange") {
+					_ = idx
+					reads = P.Pos(in.Pos())
+				}
+			}
+		}
+		if reads == "" {
+			continue
+		}
+		n++
+		top := topFn(f)
+		ok := c.isAnchor(top, allowed...) || c.onlyCalledFrom(top, 2, allowed...)
+		R.Check(ok, rule, c.name(c.ownerFn(f))+"|reads SeqRange bounds", reads, "a resolver function", "the bounds of a client's message set are inspected outside the resolvers ("+reads+"): a second, private interpretation of the set decides what the command acts on")
+	}
+	R.Min(rule, "functions reading SeqRange bounds", n, 2)
 }
